@@ -66,8 +66,11 @@ theorem erase_decodeIntoLoop (flat : List Nat) (mem : Bytes) : ∀ (fuel base : 
                   rcases skipWin_cases d1 tag wt with ⟨d2, s, l, hw, ho, hsame, hfit⟩ | ⟨hw, ho⟩ | ⟨hw, ho⟩
                   · rw [hw, ho]
                     simp only []
-                    rw [window_drop mem base d1 hs1 s l _ hfit, ← read_snoc mem fd wt (base + s + sizeOfTagKey tag, l - sizeOfTagKey tag),
-                      ← List.map_set]
+                    obtain ⟨hoff, _, hle⟩ := skipWin_off d1 tag wt d2 s l hw
+                    have hfit' : d1.off + (d2.off - d1.off) ≤ d1.p.length := by omega
+                    have hwin := read_winRef hs1 hfit'
+                    simp only [winRef, Ref.read] at hwin
+                    rw [← hwin, ← read_snoc mem fd wt (base + d1.off, d2.off - d1.off), ← List.map_set]
                     exact ih base d2 _ (hs1.same hsame)
                   · rw [hw, ho]; rfl
                   · rw [hw, ho]; rfl
